@@ -31,7 +31,7 @@ import (
 
 func init() {
 	register(&Check{ID: "C20", Level: "exploration",
-		Rule: "race detector + pool/ownership sanitizers over (A) end-to-end stress on all listeners/upstreams with abandoned client connections, failing upstreams, tiny cache with injected delays, quarantine on and off, and (B) in-process exchanges on every upstream transport with context deadlines of 0-2.5 ms against a 0-3 ms server; " +
+		Rule: "race detector + pool/ownership sanitizers over (A) end-to-end stress on all listeners/upstreams with abandoned client connections, failing upstreams, tiny cache with injected delays, quarantine on and off, and (B) in-process exchanges on every upstream transport with context deadlines of 0-2.5 ms against a 0-3 ms server that closes 15% of the connections after a reply (retries on reused connections; the server must only ever receive well-formed queries that were asked), (C) the in-process cache stress, (D) the hostile-decoder workload of C01 judged for ownership reports only (its inputs count as distinct cases); " +
 			"one evaluation = one request/exchange executed under the sanitizers; distinct non-trivial = distinct (workload, listener-or-transport, outcome) cells exercised",
 		Run: runC20})
 	children["c20tr"] = c20TransportChild
